@@ -58,3 +58,25 @@ func StackSite() string {
 	}
 	return "unknown"
 }
+
+// GoroutinesIn counts the goroutines (running, runnable or not yet started) whose stack mentions substr.
+// A goroutine that was created with `go f()` but has not run yet is listed with f as its only frame, so this
+// sees asynchronous work before it reaches any instrumented point.
+func GoroutinesIn(substr string) int {
+	buf := make([]byte, 1<<20)
+	for {
+		n := runtime.Stack(buf, true)
+		if n < len(buf) {
+			buf = buf[:n]
+			break
+		}
+		buf = make([]byte, 2*len(buf))
+	}
+	cnt := 0
+	for _, g := range strings.Split(string(buf), "\n\n") {
+		if strings.Contains(g, substr) {
+			cnt++
+		}
+	}
+	return cnt
+}
